@@ -246,6 +246,13 @@ fn echo_image(src: &[[f32; 3]], f: impl Fn(&[[f32; 3]]) -> Result<Vec<[f32; 3]>,
     v
 }
 
+/// pixels with a NEGATIVE ZERO in one or more channels (-0.0 equals 0.0 and is inside every [0, x] domain, but its bit
+/// pattern is the largest of all: comparisons or sorting done on the bits, `max`/`min` folds and sign tricks trip on it)
+fn signed_zero_pixels() -> Vec<[f32; 3]> {
+    let z = -0.0f32;
+    vec![[0.9, z, 0.5], [z, 0.9, 0.5], [0.5, 0.9, z], [z, z, 0.7], [0.7, z, z], [z, 0.7, z], [z, z, z], [z, 0.0, 0.0], [0.25, z, 0.25], [1.0, 1.0, z], [z, 0.3, 0.3]]
+}
+
 /// nearly neutral pixels at several levels: channels within 2^-6 .. 2^-23 (relative) of each other, both signs, equal and
 /// unequal offsets (the band between "exactly grey" and "visibly coloured" that lattices and random samples never hit)
 fn near_neutral(max1: bool) -> Vec<[f32; 3]> {
@@ -305,6 +312,7 @@ pub fn gen_c04(sh: &mut Shards, o: &Opts) -> serde_json::Value {
         px.push(p);
     }
     px.extend(near_neutral(false));
+    px.extend(signed_zero_pixels());
     let n = px.len() as u64;
     for (at, w, h) in cut_images(px.len(), 1) {
         let img = &px[at..at + w * h];
@@ -346,6 +354,7 @@ pub fn gen_c05(sh: &mut Shards, o: &Opts) -> serde_json::Value {
         px.push([rng.f32_in(0.0, 1.0), rng.f32_in(0.0, 1.0), rng.f32_in(0.0, 1.0)]);
     }
     px.extend(near_neutral(true));
+    px.extend(signed_zero_pixels());
     let n = px.len() as u64;
     for (at, w, h) in cut_images(px.len(), 2) {
         let img = &px[at..at + w * h];
@@ -571,6 +580,7 @@ pub fn gen_c17(sh: &mut Shards, o: &Opts) -> serde_json::Value {
     }
     // nearly grey pixels (S is judged for 0.01 <= L <= 0.99, the round trip everywhere)
     px.extend(near_neutral(true));
+    px.extend(signed_zero_pixels());
     // hues a hair away from every sextant boundary: the middle channel 2^-8 .. 2^-26 (quarter-octave steps) of the chroma
     // above the minimum or below the maximum, for every ordering of the channels (the float just below 360 is among them)
     for &(hi, lo) in &[(1.0f32, 0.0f32), (0.8, 0.2)] {
